@@ -133,6 +133,11 @@ impl Sess {
     }
 
     /// start a new case: fresh directory, `cfg` line to both sides
+    /// `num_ops_per_wal` of the current case
+    pub fn n_wal(&self) -> u64 {
+        self.cfgline.split(' ').find_map(|t| t.strip_prefix("n=")).and_then(|v| v.parse().ok()).unwrap_or(0)
+    }
+
     pub fn begin_case(&mut self, cfgline: &str) {
         // end the previous session cleanly so that destructors run in the worker
         self.case_no += 1;
